@@ -11,7 +11,13 @@ use std::fs::File;
 use std::io::BufReader;
 
 use std::path::PathBuf;
+#[cfg(rfsm_verif)]
+use crate::verif_seams::sync::mpsc::{SendError, Sender};
+#[cfg(rfsm_verif)]
+use crate::verif_seams::sync::{Arc, LockResult, Mutex, MutexGuard};
+#[cfg(not(rfsm_verif))]
 use std::sync::mpsc::{SendError, Sender};
+#[cfg(not(rfsm_verif))]
 use std::sync::{Arc, LockResult, Mutex, MutexGuard};
 
 #[cfg(feature = "Debug")]
